@@ -48,6 +48,11 @@ def sh(cmd, timeout=None, cwd=None, env=None):
     return p.returncode, p.stdout
 
 
+import threading
+_built_guard = threading.Lock()
+_built_imports = set()
+
+
 class Lock:
     def __init__(self, exclusive):
         os.makedirs(BUILD, exist_ok=True)
@@ -350,9 +355,25 @@ class Ctx:
                                 "model": model, "impl": impl})
 
     # --- Coq evaluation
+    def ensure_built(self, imports):
+        """the modules a case file imports are rebuilt from the current model sources / regenerated tables
+        (they need not be in the dependency closure of Props/Cxx.v)"""
+        with _built_guard:
+            need = [i for i in imports if i not in _built_imports]
+            if not need:
+                return
+            log = []
+            with Lock(True):
+                ok, where, err = build([i.replace(".", "/") + ".vo" for i in need], log)
+            if ok:
+                _built_imports.update(need)
+            else:
+                self.broken.append("model module does not build (%s): %s" % ("%s line %d" % where if where else "build", err[:800]))
+
     def coq_eval(self, name, imports, body, timeout=900):
         """Compile a generated .v file; returns (rc, stdout, list of Eval outputs)."""
         path = os.path.join(self.dir, "cases", name + ".v")
+        self.ensure_built(imports)
         with open(path, "w") as f:
             f.write("From Coq Require Import String.\nFrom Verif Require Import %s.\nOpen Scope string_scope.\nSet Printing Width 100000.\nSet Printing Depth 100000.\n" % " ".join(imports))
             f.write(body)
